@@ -1039,12 +1039,22 @@ impl NodeDeletionEntry {
     ) -> std::result::Result<(), rusqlite::Error> {
         let query = "DELETE FROM _node WHERE room_id=? AND id=?";
         let mut stmt = conn.prepare_cached(query)?;
+        let mut select_stmt =
+            conn.prepare_cached("SELECT mdate FROM _node WHERE room_id = ? AND id = ?")?;
         for node in nodes {
             Node::delete_from_index(
                 "SELECT rowid, _json FROM _node WHERE room_id=? AND id=? AND EXISTS (SELECT 1 FROM _node_fts WHERE _node_fts.rowid=_node.rowid)",
                 (node.room_id, node.id),
                 conn,
             )?;
+            //the stored row can be another version than the one named by the deletion record: its day loses a row too
+            {
+                let mut rows = select_stmt.query((&node.room_id, &node.id))?;
+                if let Some(row) = rows.next()? {
+                    let stored_mdate: i64 = row.get(0)?;
+                    daily_log.set_need_update(node.room_id, &node.entity, stored_mdate);
+                }
+            }
             stmt.execute((node.room_id, node.id))?;
             node.write(conn)?;
             daily_log.set_need_update(node.room_id, &node.entity, node.deletion_date);
